@@ -100,6 +100,7 @@ type interpreter struct {
 	callDepth int
 	curStack  []*frame
 	funcs     map[*ssa.Function]int
+	built     map[*ssa.Package]bool
 }
 
 type deferred struct {
@@ -536,11 +537,11 @@ func callSSABody(i *interpreter, caller *frame, callpos token.Pos, fn *ssa.Funct
 		// package initialisation is lazy (see initPkg)
 		return nil
 	}
+	// Packages are built lazily and concurrently by several workers: never
+	// look at fn.Blocks before the owning package's Build has returned.
+	i.buildFunc(fn)
 	if fn.Blocks == nil {
-		i.buildFunc(fn)
-		if fn.Blocks == nil {
-			unsupported("no code for function: %s", fn.String())
-		}
+		unsupported("no code for function: %s", fn.String())
 	}
 	i.callDepth++
 	if i.callDepth > 4000 {
